@@ -81,6 +81,7 @@ type Profile struct {
 	TakenPct   int  // desired share of taken conditional branches
 	Hostile    bool // shadows of taken branches hold hostile instructions
 	OOBShadow  bool // hostile shadows may access out-of-bounds addresses
+	ErrShadow  bool // hostile shadows may hold a division by the zero register
 	ZeroRaPct  int  // chance (in %) that zero / ra join the pool
 	MaxDyn     int  // bound on the dynamic instruction count
 	LoadsOnly  bool
@@ -332,7 +333,11 @@ func (b *Builder) Hostile(endLabel string) {
 			b.emit(ref.Ins{Op: "lw", Rd: b.dest("rd"), Rs1: 0, Imm: b.addr(4, "ea")})
 		}
 	case 8:
-		b.emit(ref.Ins{Op: rapid.SampledFrom([]string{"div", "rem"}).Draw(b.t, "op"), Rd: b.dest("rd"), Rs1: b.reg("rs1"), Rs2: 0})
+		if b.P.ErrShadow {
+			b.emit(ref.Ins{Op: rapid.SampledFrom([]string{"div", "rem"}).Draw(b.t, "op"), Rd: b.dest("rd"), Rs1: b.reg("rs1"), Rs2: 0})
+		} else {
+			b.emit(ref.Ins{Op: "sub", Rd: b.dest("rd"), Rs1: b.reg("rs1"), Rs2: b.reg("rs2")})
+		}
 	case 9:
 		b.emit(ref.Ins{Op: "jal", Rd: rapid.SampledFrom([]int{0, 1}).Draw(b.t, "link"), Label: endLabel})
 	case 10:
